@@ -107,3 +107,35 @@ package bfe_route
 //@   loop 6 invariant forall k int :: 0 <= k && k <= rangeindex ==> has(ct, routeRules[k].ClusterName)
 //@   loop 7 invariant forall p string :: visited(p) && has(ht.productBasicRouteTable, p) ==> (forall k int :: 0 <= k && k < len(ht.productBasicRouteTable[p]) ==> ht.productBasicRouteTable[p][k].ClusterName == "ADVANCED_MODE" || has(ct, ht.productBasicRouteTable[p][k].ClusterName))
 //@   loop 8 invariant forall k int :: 0 <= k && k <= rangeindex ==> routeRules[k].ClusterName == "ADVANCED_MODE" || has(ct, routeRules[k].ClusterName)
+
+// ---- C14: the host trie does not depend on the order in which the host map is iterated ----
+// buildHostRoute stores each host under its lookup key while ranging over a map. No key is stored twice
+// (so no Set overwrites another and the order of the Sets is immaterial) because the loader only accepts
+// host maps whose hosts have pairwise distinct lookup keys; the requirement is carried from the loader's
+// postcondition through hostTableLoad, Update and updateHostTable.
+
+//@ func buildHostRoute
+//@   props C14
+//@   requires[hosts_have_distinct_lookup_keys] forall h1 string :: forall h2 string :: has(conf.HostMap, h1) && has(conf.HostMap, h2) && hostKeyOf(h1) == hostKeyOf(h2) ==> h1 == h2
+//@   frame * keeps conf.HostMap[..], conf.HostTagMap[..]
+//@   note building the trie (NewTrie, Set, Split) is assumed not to write the host maps it reads
+//@   modifies *
+//@   loop 1 invariant[visited_hosts_are_hosts_of_the_map] forall h string :: visited(h) ==> has(conf.HostMap, h)
+//@   assert[no_lookup_key_is_stored_twice] at "hostTrie.Set(" :: forall h1 string :: forall h2 string :: visited(h1) && visited(h2) && hostKeyOf(h1) == revFqdn(host) && hostKeyOf(h2) == revFqdn(host) ==> h1 == h2
+
+//@ func (*HostTable).updateHostTable
+//@   props C14
+//@   requires[hosts_have_distinct_lookup_keys] forall h1 string :: forall h2 string :: has(conf.HostMap, h1) && has(conf.HostMap, h2) && hostKeyOf(h1) == hostKeyOf(h2) ==> h1 == h2
+//@   modifies *
+
+//@ func (*HostTable).Update
+//@   props C14
+//@   requires[hosts_have_distinct_lookup_keys] forall h1 string :: forall h2 string :: has(hostConf.HostMap, h1) && has(hostConf.HostMap, h2) && hostKeyOf(h1) == hostKeyOf(h2) ==> h1 == h2
+//@   modifies *
+
+//@ func (*ServerDataConf).hostTableLoad
+//@   props C14
+//@   frame VipRuleConfLoad keeps hostConf.HostMap[..]
+//@   frame RouteConfLoad keeps hostConf.HostMap[..]
+//@   note the vip and route loaders and the logger are assumed not to write the host map just loaded
+//@   modifies *
